@@ -8,7 +8,9 @@
    sponge construction [sponge256 f] / [sponge_stream f] for every input, chunking and script.
    The reference Keccak-256 is the instance  keccak256 = sponge256 keccak_f  with the
    Keccak-f[1600] of Keccak/Permutation.v (validated against published digests in
-   Keccak/Vectors.v); the instance corollaries are the [..._keccak] theorems at the end.  Their
+   Keccak/Vectors.v, and against the FIPS-202 transcription Keccak/PermutationN.v on sample
+   states — both are imported here so that these tests are re-run with the proofs); the instance
+   corollaries are the [..._keccak] and [..._N] theorems at the end.  Their
    Print Assumptions lists the Uint63 kernel primitives (PrimInt63.*; Coq 8.16 prints
    primitives under "Axioms:" although none is declared by an Axiom command); the
    parametric theorems are "Closed under the global context".
@@ -16,7 +18,7 @@
    [Panic c] = the Go call panics (1 Write after Read, 2 Sum after Read, 3 = the model's loop
    fuel ran out: proved unreachable).  [wf] is the invariant the Go types/code maintain
    ([200]byte array, n < rate while absorbing, n <= rate while squeezing). *)
-From GV Require Import Lib.Tactics Keccak.Permutation Keccak.Sponge Keccak.SpongeProofs.
+From GV Require Import Lib.Tactics Keccak.Permutation Keccak.Sponge Keccak.SpongeProofs Keccak.PermutationN Keccak.PermutationNProofs Keccak.Vectors.
 Local Open Scope N_scope.
 
 Definition flen (f : list N -> list N) : Prop :=
@@ -148,6 +150,26 @@ Theorem C04_keccak256_impl_keccak : forall s data,
   wf s -> keccak256_impl keccak_f s data = Ok (keccak256 (concat data)).
 Proof. exact (keccak256_impl_spec keccak_f C04_flen_keccak). Qed.
 Print Assumptions C04_keccak256_impl_keccak.
+
+(* ---- the primitive-free instance: the FIPS-202 transcription of Keccak/PermutationN.v (lanes
+   as N; agrees with keccak_f on the sample states of PermutationN.v — a test); these instance
+   theorems are Closed under the global context ---- *)
+Theorem C04_flen_N : flen keccak_f_N.
+Proof. exact (fun a _ => keccak_f_N_length a). Qed.
+Print Assumptions C04_flen_N.
+
+Theorem C04_refines_spec_N : forall ops,
+  run keccak_f_N init ops = spec_run keccak_f_N (AAbs []) ops.
+Proof. exact (run_init keccak_f_N C04_flen_N). Qed.
+Print Assumptions C04_refines_spec_N.
+
+Theorem C04_chunking_N : forall chunks,
+  match writes keccak_f_N init chunks with
+  | Ok s => match read keccak_f_N s output_len with Ok (_, h) => Ok h | Panic c => Panic c end
+  | Panic c => Panic c
+  end = Ok (keccak256_N (concat chunks)).
+Proof. exact (chunking_read keccak_f_N C04_flen_N). Qed.
+Print Assumptions C04_chunking_N.
 
 (* non-vacuity: [flen] is met by keccak_f (above), [wf] by [init]; a concrete script exercising
    block boundaries, Sum in the middle, Read across the rate boundary, the panics and Reset;
